@@ -11,6 +11,9 @@
      emit / sites        every signing site, described by where it takes the private key and the certificates from
      cfg_get_key, token_get_key, cache_get_key, init_key      key lookup (config alias, file token, tokencache, signinit.InitKey)
 
+   The behaviour over HISTORIES inside one long-lived process (key file / certificate files replaced between requests,
+   token cache, what survives a request) is modelled in C07/History.v on top of these definitions.
+
    Independent specification (written from the property statement, shares nothing with the above):
      pub_eqb, spec_same, spec_leaf_candidates, spec_load, spec_emitted, spec_resolve.
 
